@@ -209,3 +209,77 @@ windowed = Contract("C14.WindowFunction.windowed[codons]", target=lambda: _WF().
                     canaries=[("window of 2", "tuples = sequences.ravel().reshape(-1, self.window_size)", "tuples = sequences.ravel().reshape(-1, 2)"),
                               ("row lengths not divided", "sequences.lengths // self.window_size)", "sequences.lengths)")])
 CONTRACTS.append(windowed)
+
+
+# --- GenomicSequence.extract_intervals: the strand column chooses, row by row, between the extracted sequence and its reverse complement ----------
+# `_extract_intervals` (the backend) and `get_reverse_complement` (contract above) are abstract: S and RC are ragged arrays with the same row lengths.
+def _GS():
+    from bionumpy.genomic_data.genomic_sequence import GenomicSequence
+    return GenomicSequence
+
+
+class _Bound:
+    def __init__(self, f):
+        self.f = f
+
+    def sym_call(self, ip, args, kwargs, lineno):
+        return self.f(ip, args, kwargs, lineno)
+
+
+def _setup_ei(stranded):
+    def setup(ctx):
+        from pyvc.pybuiltins import STable
+        st = St()
+        st.n, st.T = z3.Int("n_intervals"), z3.Int("n_bases")
+        st.len, st.strand = z3.Function("row_length", z3.IntSort(), z3.IntSort()), z3.Function("strand", z3.IntSort(), z3.IntSort())
+        st.s, st.rc = z3.Function("base", z3.IntSort(), z3.IntSort(), z3.IntSort()), z3.Function("rc_base", z3.IntSort(), z3.IntSort(), z3.IntSort())
+        st.C = M.exclusive_prefix(lambda i: st.len(I(i)), st.n)
+        mk = lambda f: SRaggedObj(None, st.n, lambda i: st.C(I(i)), lambda i: st.len(I(i)), "DNA", st.C(st.n), contiguous=True, C=st.C)
+        st.S, st.RC = mk(st.s), mk(st.rc)
+        st.S.at = lambda i, k: st.s(I(i), I(k))
+        st.RC.at = lambda i, k: st.rc(I(i), I(k))
+        st.iv = STable({"chromosome": Opaque("chromosome"), "start": Opaque("start"), "stop": Opaque("stop"),
+                        "strand": SArr.fresh(st.n, lambda i: st.strand(I(i)), enc="strand/ascii")}, st.n)
+        st.selfv = SRec(_GS())
+        st.seen = {}
+        ctx.ip.class_models[(_GS(), "_extract_intervals")] = lambda ip, obj: _Bound(lambda ip, args, kwargs, lineno: (st.seen.__setitem__("extract", args[0]), st.S)[1])
+        st.args = [st.iv]
+        st.kwargs = {"stranded": stranded}
+        st.stranded = stranded
+        _hei["st"] = st
+        return st
+    return setup
+
+
+_hei = {}
+
+
+def _rc_callee(ip, args, kwargs, lineno):
+    st = _hei["st"]
+    st.seen["rc_of"] = args[0]
+    return st.RC
+
+
+def _ens_ei(ctx, st, ret):
+    out = [("the.backend.is.asked.for.the.intervals.given", st.seen.get("extract") is st.iv), ("one.row.per.interval", I(ret.n) == st.n)]
+    if not st.stranded:
+        return out + [("unstranded: the extracted sequences themselves", Forall(lambda i, k: Implies(And(in_range(i, st.n), in_range(k, st.len(i))),
+                                                                                                    And(I(ret.lens(i)) == st.len(i), ret.at(i, k) == st.s(i, k))), nvars=2))]
+    plus = lambda i: st.strand(i) == ord("+")
+    return out + [("the.reverse.complement.is.taken.of.the.extracted.sequences", st.seen.get("rc_of") is st.S),
+                  ("row.length", Forall(lambda i: Implies(in_range(i, st.n), I(ret.lens(i)) == st.len(i)))),
+                  ("row.i.is.the.sequence.on.'+'.and.its.reverse.complement.otherwise",
+                   Forall(lambda i, k: Implies(And(in_range(i, st.n), in_range(k, st.len(i))), ret.at(i, k) == Ite(plus(i), st.s(i, k), st.rc(i, k))), nvars=2))]
+
+
+def _mk_ei(stranded):
+    return Contract("C14.GenomicSequence.extract_intervals[%s]" % ("stranded" if stranded else "unstranded"), target=lambda: _GS().extract_intervals, setup=_setup_ei(stranded),
+                    requires=lambda ctx, st: [st.n >= 0, Forall(lambda i: st.len(i) >= 0, triggers=[st.len], name="row lengths")], ensures=_ens_ei,
+                    callees={"bionumpy.genomic_data.genomic_sequence.dna_encode": lambda ip, args, kwargs, lineno: args[0],
+                             "bionumpy.sequence.dna.get_reverse_complement": _rc_callee,
+                             "bionumpy.streams.decorators.streamable.__call__.<locals>.new_func": _rc_callee},
+                    canaries=[("strands swapped", "(intervals.strand == '+')[:, np.newaxis]", "(intervals.strand != '+')[:, np.newaxis]")] if stranded else
+                             [("always reverse-complemented", "if stranded:", "if True:")])
+
+
+CONTRACTS += [_mk_ei(True), _mk_ei(False)]
